@@ -49,6 +49,42 @@ theorem keys_nodup_filter {a : Assign} (hn : (a.map (·.1)).Nodup) (q : Peak × 
 
 /-! ## min_instance_peaks -/
 
+/-- an integer `min_instance_peaks` involves no float product -/
+@[simp] theorem minPeaksThresholdF64_int (n : Int) (k : Nat) :
+    minPeaksThresholdF64 (.int n) k = minPeaksThreshold (.int n) k := rfl
+
+/-- when the float64 product `q * n_nodes` is exact, the code's threshold is the exact
+    `⌊q · n_nodes⌋` of the idealised rule (the one the AST-translated block is tied to) -/
+theorem minPeaksThresholdF64_of_exact {q : Rat} {k : Nat} (h : roundF64 (q * (k : Rat)) = q * (k : Rat)) :
+    minPeaksThresholdF64 (.frac q) k = minPeaksThreshold (.frac q) k := by
+  show (if 0 < q then some (roundF64 (q * (k : Rat))).floor else none)
+    = (if 0 < q then some (q * (k : Rat)).floor else none)
+  rw [h]
+
+/-- the pipeline model on `effMinPeaks` filters exactly as the code's float64 rule does -/
+theorem filterSmall_eff (a : Assign) (mp : MinPeaks) (k : Nat) :
+    filterSmall a (minPeaksThreshold (effMinPeaks mp k) k) = filterSmall a (minPeaksThresholdF64 mp k) := by
+  cases mp with
+  | int n => rfl
+  | frac q =>
+    by_cases hq : 0 < q
+    · have e1 : effMinPeaks (.frac q) k = .int (roundF64 (q * (k : Rat))).floor := by
+        simp [effMinPeaks, hq]
+      have e2 : minPeaksThresholdF64 (.frac q) k = some (roundF64 (q * (k : Rat))).floor := by
+        simp [minPeaksThresholdF64, hq]
+      rw [e1, e2]
+      by_cases ht : 0 < (roundF64 (q * (k : Rat))).floor
+      · simp [minPeaksThreshold, ht]
+      · simp only [minPeaksThreshold, ht, if_false, filterSmall]
+        symm
+        apply List.filter_eq_self.mpr
+        intro kv _
+        have : (roundF64 (q * (k : Rat))).floor ≤ (countId a kv.2 : Int) := by omega
+        simpa using this
+    · have e1 : effMinPeaks (.frac q) k = .frac q := by simp [effMinPeaks, hq]
+      rw [e1]
+      simp [minPeaksThreshold, minPeaksThresholdF64, hq]
+
 /-- the instance `i` survives the `min_instance_peaks` filter -/
 def Kept (raw : Assign) (thr : Option Int) (i : Nat) : Prop :=
   match thr with
